@@ -193,6 +193,18 @@ func genC04(w *bufio.Writer, tier string, rng *rand.Rand) {
 			fmt.Fprintf(w, "tt pooled %s %s 0p-1074 %d\n", fmtFs(x1), fmtFs(x2), alt)
 		}
 	}
+	// corners of MeanCI: the smallest samples with confidence levels next to 0 and 1 (quantiles of
+	// the heaviest-tailed t distributions far out)
+	for k := 0; k < pick(tier, 120, 2000); k++ {
+		nn := 2 + rng.Intn(3)
+		if rng.Intn(4) == 0 {
+			nn = 5 + rng.Intn(30)
+		}
+		xs := ttValues(rng, nn, float64(rng.Intn(3))*10, math.Ldexp(1, rng.Intn(5)-2))
+		c := []float64{1 - 1e-10, 1 - 1e-11, 1 - 1e-12, 1 - 1e-14, math.Nextafter(1, 0), 1 - math.Ldexp(1, -30-rng.Intn(22)), 1e-10, 1e-15, math.Ldexp(1, -40-rng.Intn(1000)),
+			1 - 1e-9, 1 - 3e-10, 0.999999, 0.5}[rng.Intn(13)]
+		fmt.Fprintf(w, "meanci %s %s\n", fmtFs(xs), fmtF(c))
+	}
 	// histories: one confidence level, sample sizes that differ by multiples of small powers of
 	// two among them, in a process of its own
 	for h := 0; h < pick(tier, 25, 400); h++ {
